@@ -1,11 +1,1021 @@
-//! C16 — not implemented yet (stub).
-use crate::engine::Ctx;
+//! C16 — a uniform fluid is an exact solution of the discretised DFT in every geometry.
+//!
+//! Oracle: the bulk equation of state (feos-core `State` evaluated through the bulk route of
+//! the functional) plus an independent geometric reference for the volume of every grid.
+use crate::engine::{Ctx, Gen, Obs, PanicPolicy, PartCfg};
+use crate::model::*;
+use feos::core::{Contributions, ReferenceSystem, State};
+use feos_dft::adsorption::{ExternalPotential, Pore1D, Pore2D, Pore3D, PoreProfile, PoreSpecification};
+use feos_dft::solvation::{PairCorrelation, SolvationProfile};
+use feos_dft::{Axis, DFTProfile, Geometry, Grid, HelmholtzEnergyFunctional};
+use ndarray::{arr2, Array, Array1, Array2, ArrayD, Dimension, IxDyn, RemoveAxis};
+use ndarray::{Ix1, Ix2, Ix3};
+use quantity::*;
+use serde::{Deserialize, Serialize};
 use serde_json::Value;
+use std::f64::consts::PI;
 
-pub fn run(_ctx: &Ctx) {
-    panic!("C16: check not implemented yet");
+#[derive(Serialize, Deserialize, Clone, Copy, Debug, PartialEq, Eq)]
+pub enum GridKind {
+    Cartesian1,
+    Spherical,
+    Polar,
+    Cartesian2,
+    Periodical2,
+    Cylindrical,
+    Cartesian3,
+    Periodical3,
 }
 
-pub fn replay(_ctx: &Ctx, _part: &str, _case: &Value) -> bool {
-    panic!("C16: check not implemented yet");
+impl GridKind {
+    pub fn dim(&self) -> usize {
+        match self {
+            Self::Cartesian1 | Self::Spherical | Self::Polar => 1,
+            Self::Cartesian2 | Self::Periodical2 | Self::Cylindrical => 2,
+            Self::Cartesian3 | Self::Periodical3 => 3,
+        }
+    }
+    pub fn has_polar_axis(&self) -> bool {
+        matches!(self, Self::Polar | Self::Cylindrical)
+    }
+}
+
+pub const KINDS: [GridKind; 8] = [
+    GridKind::Cartesian1,
+    GridKind::Spherical,
+    GridKind::Polar,
+    GridKind::Cartesian2,
+    GridKind::Periodical2,
+    GridKind::Cylindrical,
+    GridKind::Cartesian3,
+    GridKind::Periodical3,
+];
+
+/// Serialisable description of a grid. `n`, `len` per axis (Angstrom), `angles` in degrees
+/// (Periodical2: [alpha]; Periodical3: [alpha, beta, gamma]), `offset`: potential offset of a
+/// Cartesian1 axis (Angstrom, 0 = none).
+#[derive(Serialize, Deserialize, Clone, Debug, PartialEq)]
+pub struct GridSpec {
+    pub kind: GridKind,
+    pub n: Vec<usize>,
+    pub len: Vec<f64>,
+    pub angles: Vec<f64>,
+    pub offset: f64,
+}
+
+fn gram(a: &[f64]) -> f64 {
+    let (ca, cb, cg) = (a[0].to_radians().cos(), a[1].to_radians().cos(), a[2].to_radians().cos());
+    1.0 - ca * ca - cb * cb - cg * cg + 2.0 * ca * cb * cg
+}
+
+pub fn gen_grid(g: &mut Gen, kinds: &[GridKind], n1_max: usize, n2_max: usize, n3_max: usize) -> GridSpec {
+    let kind = g.pick(kinds);
+    let d = kind.dim();
+    let (lo, hi) = match d {
+        1 => (16.0, n1_max as f64 + 0.999),
+        2 => (8.0, n2_max as f64 + 0.999),
+        _ => (8.0, n3_max as f64 + 0.999),
+    };
+    let mut n = vec![];
+    let mut len = vec![];
+    for _ in 0..d {
+        n.push(((g.log_range(lo, hi) + 1e-9).floor() as usize).max(lo as usize));
+        len.push(g.log_range(10.0, 300.0));
+    }
+    let mut angles = vec![];
+    match kind {
+        GridKind::Periodical2 => angles.push(90.0 + g.range(-60.0, 60.0) * if g.bool(0.8) { 1.0 } else { 0.0 }),
+        GridKind::Periodical3 => {
+            let ortho = !g.bool(0.8);
+            for _ in 0..3 {
+                let a = 90.0 + g.range(-45.0, 45.0);
+                angles.push(if ortho { 90.0 } else { a });
+            }
+            // a valid cell needs a positive Gram determinant: pull towards 90 degrees otherwise
+            while gram(&angles) < 0.1 {
+                for a in angles.iter_mut() {
+                    *a = 90.0 + 0.5 * (*a - 90.0);
+                }
+            }
+        }
+        _ => {}
+    }
+    let offset = if kind == GridKind::Cartesian1 && g.bool(0.25) {
+        g.range(1.0, 10.0)
+    } else {
+        0.0
+    };
+    GridSpec {
+        kind,
+        n,
+        len,
+        angles,
+        offset,
+    }
+}
+
+impl GridSpec {
+    fn ax(&self, i: usize) -> Axis {
+        Axis::new_cartesian(self.n[i], self.len[i] * ANGSTROM, None)
+    }
+    pub fn build(&self) -> Grid {
+        match self.kind {
+            GridKind::Cartesian1 => Grid::Cartesian1(Axis::new_cartesian(
+                self.n[0],
+                self.len[0] * ANGSTROM,
+                if self.offset > 0.0 { Some(self.offset) } else { None },
+            )),
+            GridKind::Spherical => Grid::Spherical(Axis::new_spherical(self.n[0], self.len[0] * ANGSTROM)),
+            GridKind::Polar => Grid::Polar(Axis::new_polar(self.n[0], self.len[0] * ANGSTROM)),
+            GridKind::Cartesian2 => Grid::Cartesian2(self.ax(0), self.ax(1)),
+            GridKind::Periodical2 => Grid::Periodical2(self.ax(0), self.ax(1), self.angles[0] * DEGREES),
+            GridKind::Cylindrical => Grid::Cylindrical {
+                r: Axis::new_polar(self.n[0], self.len[0] * ANGSTROM),
+                z: self.ax(1),
+            },
+            GridKind::Cartesian3 => Grid::Cartesian3(self.ax(0), self.ax(1), self.ax(2)),
+            GridKind::Periodical3 => Grid::Periodical3(
+                self.ax(0),
+                self.ax(1),
+                self.ax(2),
+                [self.angles[0] * DEGREES, self.angles[1] * DEGREES, self.angles[2] * DEGREES],
+            ),
+        }
+    }
+    /// Independent geometric reference: the volume (A, A^2, A^3) of the discretised domain,
+    /// including a potential offset (which is part of the integration domain).
+    pub fn reference_volume(&self) -> f64 {
+        let l = &self.len;
+        match self.kind {
+            GridKind::Cartesian1 => l[0] + self.offset,
+            GridKind::Spherical => 4.0 / 3.0 * PI * l[0].powi(3),
+            GridKind::Polar => PI * l[0] * l[0],
+            GridKind::Cartesian2 => l[0] * l[1],
+            GridKind::Periodical2 => l[0] * l[1] * self.angles[0].to_radians().sin(),
+            GridKind::Cylindrical => PI * l[0] * l[0] * l[1],
+            GridKind::Cartesian3 => l[0] * l[1] * l[2],
+            GridKind::Periodical3 => l[0] * l[1] * l[2] * gram(&self.angles).sqrt(),
+        }
+    }
+    pub fn class(&self) -> String {
+        format!("{:?}", self.kind)
+    }
+}
+
+#[derive(Serialize, Deserialize, Clone, Debug)]
+pub struct Case {
+    pub grid: GridSpec,
+    pub spec: ModelSpec,
+    pub state: StateSpec,
+    /// None, Some(1), Some(2)
+    pub lanczos: Option<i32>,
+    /// additionally construct the profile through the public wrapper constructor of the grid
+    /// type (Pore1D / Pore2D / Pore3D / PairCorrelation / SolvationProfile)
+    pub wrapped: bool,
+}
+
+pub const FUNCTIONALS: [Family; 5] = [
+    Family::PcSaftFunctional,
+    Family::FmtFunctional,
+    Family::GcPcSaftFunctional,
+    Family::PetsFunctional,
+    Family::SaftVRQMieFunctional,
+];
+
+pub fn decode(g: &mut Gen) -> Case {
+    let grid = gen_grid(g, &KINDS, 4096, 128, 32);
+    let max_comp = if grid.kind.dim() == 1 { 3 } else { 2 };
+    let mut spec = gen_model(
+        g,
+        &GenCfg {
+            families: FUNCTIONALS.to_vec(),
+            min_comp: 1,
+            max_comp,
+        },
+    );
+    acyclic_gc(&mut spec);
+    let mut grid = grid;
+    limit_work(&mut grid, &spec);
+    let state = gen_state(g, spec.n());
+    let lanczos = [None, Some(1), Some(2)][g.index(3)];
+    let wrapped = g.bool(0.5);
+    Case {
+        grid,
+        spec,
+        state,
+        lanczos,
+        wrapped,
+    }
+}
+
+/// number of density fields (segments) of a spec
+pub fn n_segments(spec: &ModelSpec) -> usize {
+    if spec.family == Family::GcPcSaftFunctional {
+        spec.pure
+            .iter()
+            .map(|r| r["segments"].as_array().map(|a| a.len()).unwrap_or(1))
+            .sum()
+    } else {
+        spec.n()
+    }
+}
+
+/// Bound the work of one case: (grid points) x (segments) <= 24 000 in 2-D/3-D by reducing the
+/// points per axis (never below 8), so that the quick tier stays fixed-work and fast. Small
+/// models keep the full range (128 per axis in 2-D, 32 in 3-D).
+pub fn limit_work(grid: &mut GridSpec, spec: &ModelSpec) {
+    let d = grid.kind.dim();
+    if d == 1 {
+        return;
+    }
+    let segs = n_segments(spec) as f64;
+    loop {
+        let pts: f64 = grid.n.iter().map(|&n| n as f64).product();
+        if pts * segs <= 24_000.0 || grid.n.iter().all(|&n| n <= 8) {
+            break;
+        }
+        // the polar axis of a cylindrical grid keeps its size longest
+        let imax = (0..d).max_by_key(|&i| grid.n[i]).unwrap();
+        grid.n[imax] = (grid.n[imax] * 3 / 4).max(8);
+    }
+}
+
+/// The bond integrals of the heterosegmented functional are defined for tree-like molecules
+/// only (`bond_integrals` panics with "Cycle in molecular structure detected!" by design):
+/// ring molecules of gc_substances.json are outside the domain of the DFT properties. A
+/// record with a cycle (connected graph with #bonds >= #segments) is replaced by the next
+/// acyclic record of the pool.
+pub fn acyclic_gc(spec: &mut ModelSpec) {
+    if spec.family != Family::GcPcSaftFunctional {
+        return;
+    }
+    let cyclic = |r: &Value| -> bool {
+        let ns = r["segments"].as_array().map(|a| a.len()).unwrap_or(0);
+        r["bonds"].as_array().map(|b| b.len() >= ns).unwrap_or(false)
+    };
+    let pool = &POOLS.gc_substances;
+    for r in spec.pure.iter_mut() {
+        if cyclic(r) {
+            let start = pool.iter().position(|p| p["identifier"] == r["identifier"]).unwrap_or(0);
+            for k in 1..=pool.len() {
+                let cand = &pool[(start + k) % pool.len()];
+                if !cyclic(cand) {
+                    *r = cand.clone();
+                    break;
+                }
+            }
+        }
+    }
+}
+
+// ---------------------------------------------------------------------------------------
+// tolerances (relative to the stated scales; worst values measured on the pinned tree are
+// listed in `run`)
+// ---------------------------------------------------------------------------------------
+/// integral of one vs geometric reference, volume() vs integral of one, moles
+const TOL_GEO: f64 = 1e-11;
+/// weighted densities relative to the bulk weighted density of the same row
+const TOL_WD: f64 = 1e-10;
+/// Euler-Lagrange residual relative to the segment density
+const TOL_RES: f64 = 5e-11;
+/// grand potential density vs -p, relative to the sum of |terms| of omega
+const TOL_OMEGA: f64 = 1e-10;
+
+/// Functionals with association solve the site fractions iteratively to `tol_cross_assoc`
+/// (default 1e-10), independently in the bulk state and on the grid: every derived quantity
+/// can carry that error (GUIDE "false-alarm traps"; measured on the pinned tree: <= 3e-13, the
+/// Newton iteration of the site fractions ends far below its tolerance). Tolerances of the
+/// energy-like comparisons are 10 x that tolerance for those models, of the residual 1 x.
+pub fn tol_omega(spec: &ModelSpec) -> f64 {
+    if spec.has_association() {
+        TOL_OMEGA.max(10.0 * spec.opts.tol_cross_assoc)
+    } else {
+        TOL_OMEGA
+    }
+}
+/// The bulk ideal-chain term regularises ln(rho) as ln(|rho| + EPSILON)
+/// (feos-dft/src/ideal_chain_contribution.rs:42) while the grid route carries the chain term
+/// exactly through `m`: -p and omega differ by T * EPSILON * sum_i (m_i - 1) by construction
+/// (visible only below eta ~ 1e-5). Twice that bound is admitted as an absolute term.
+pub fn atol_ideal_chain(t: f64, m: &Array1<f64>) -> f64 {
+    2.0 * t * f64::EPSILON * m.iter().map(|m| (m - 1.0).max(0.0)).sum::<f64>()
+}
+pub fn tol_res(spec: &ModelSpec) -> f64 {
+    if spec.has_association() {
+        TOL_RES.max(spec.opts.tol_cross_assoc)
+    } else {
+        TOL_RES
+    }
+}
+
+pub struct Bulk {
+    pub state: State<Model>,
+    /// reduced temperature
+    pub t: f64,
+    /// reduced pressure (total)
+    pub p: f64,
+    /// partial densities per component
+    pub rho_comp: Array1<f64>,
+    /// partial densities per segment
+    pub rho_seg: Array1<f64>,
+}
+
+/// Build the bulk state of a case (None + discard reason if the state cannot be built).
+pub fn build_bulk(spec: &ModelSpec, st: &StateSpec, obs: &mut Obs) -> Option<Bulk> {
+    let model = match spec.build() {
+        Ok(m) => m,
+        Err(e) => {
+            obs.discard(format!("build:{}", e.chars().take(40).collect::<String>()));
+            return None;
+        }
+    };
+    let mut inputs = match state_inputs(spec, &model, st) {
+        Ok(i) => i,
+        Err(e) => {
+            obs.discard(format!("inputs:{e}"));
+            return None;
+        }
+    };
+    if spec.family == Family::SaftVRQMieFunctional && inputs.0.to_reduced() < 20.0 {
+        // the Feynman-Hibbs corrected potentials are parameterised for T >= 15-20 K
+        inputs.0 = Temperature::from_reduced(20.0);
+    }
+    let state = match build_state(&model, &inputs) {
+        Ok(s) => s,
+        Err(e) => {
+            obs.discard(format!("state:{}", e.chars().take(40).collect::<String>()));
+            return None;
+        }
+    };
+    let p = state.pressure(Contributions::Total).to_reduced();
+    if !p.is_finite() {
+        obs.discard("non-finite bulk pressure");
+        return None;
+    }
+    let rho_comp = state.partial_density.to_reduced();
+    let rho_seg = state.eos.component_index().mapv(|c| rho_comp[c]);
+    Some(Bulk {
+        t: state.temperature.to_reduced(),
+        p,
+        rho_comp,
+        rho_seg,
+        state,
+    })
+}
+
+/// array of shape `shape` (first axis = rows) whose row i is filled with rows[i]
+pub fn filled<DL: Dimension>(shape: &[usize], rows: &[f64]) -> Array<f64, DL> {
+    let mut a = ArrayD::<f64>::zeros(IxDyn(shape));
+    for (i, mut l) in a.outer_iter_mut().enumerate() {
+        l.fill(rows[i]);
+    }
+    a.into_dimensionality::<DL>().unwrap()
+}
+
+fn grid_shape(grid: &Grid) -> Vec<usize> {
+    grid.axes().iter().map(|a| a.grid.len()).collect()
+}
+
+fn max_abs_dev<'a>(it: impl Iterator<Item = &'a f64>, v: f64) -> f64 {
+    let mut m = 0.0f64;
+    for &x in it {
+        let d = (x - v).abs();
+        if !(d <= m) {
+            m = d; // NaN propagates
+        }
+    }
+    m
+}
+
+/// worst observed value of deviation/scale per comparison kind (evidence only, never a verdict)
+static WORST: std::sync::Mutex<std::collections::BTreeMap<String, f64>> =
+    std::sync::Mutex::new(std::collections::BTreeMap::new());
+
+pub fn note(key: &str, v: f64) {
+    let mut w = WORST.lock().unwrap();
+    let e = w.entry(key.to_string()).or_insert(0.0);
+    if v > *e || v.is_nan() {
+        *e = v;
+    }
+}
+
+fn b_t(cx: &Ctxt) -> f64 {
+    cx.bulk.t
+}
+
+struct Ctxt<'a> {
+    case: &'a Case,
+    bulk: &'a Bulk,
+    /// geometric reference of the integral of one
+    vref: f64,
+    /// what `volume()` is documented to return (offset excluded)
+    vdoc: f64,
+}
+
+const KNOWN_F1: &str = "C16/polar-axis-volume";
+
+/// comparison of a quantity that involves `volume()`; on grids with a polar axis a mismatch
+/// that is explained by volume() = 4 x integral(1) is the known finding F1.
+fn volume_clause(obs: &mut Obs, polar: bool, what: &str, got: f64, want: f64, want_f1: f64, tol_scale: f64) {
+    obs.count();
+    if (got - want).abs() <= tol_scale && got.is_finite() {
+        return;
+    }
+    let msg = format!("{what}: got {got:e}, expected {want:e} (|diff| {:e} > {tol_scale:e})", (got - want).abs());
+    if polar && (got - want_f1).abs() <= tol_scale {
+        obs.known_or_fail(KNOWN_F1, format!("{msg}; matches volume() = 4*integral(1)"));
+    } else {
+        obs.fail(msg);
+    }
+}
+
+fn check_profile<D>(cx: &Ctxt, obs: &mut Obs, profile: DFTProfile<D, Model>, route: &str)
+where
+    D: Dimension + RemoveAxis + 'static,
+    D::Larger: Dimension<Smaller = D>,
+    D::Smaller: Dimension<Larger = D>,
+    <D::Larger as Dimension>::Larger: Dimension<Smaller = D::Larger>,
+{
+    let b = cx.bulk;
+    // Roundoff of the Fourier coefficients of a constant (1e-16 sqrt(N) at every k) is amplified
+    // by weight functions that grow with k (Kierlik-Rosinberg w0 ~ k R sin(k R) / 2): the relative
+    // error of weighted densities and of the residual scales with k_max R (measured on 30 000
+    // cases: up to 3e-11 at k_max R ~ 2500, 1e-12 typically). Tolerances carry the factor
+    // 1 + k_max R_max, k_max = pi n / L of the finest axis.
+    let amp = {
+        let mut rmax = 0.0f64;
+        for w in profile.dft.weight_functions(b_t(cx)) {
+            for list in w.as_slice() {
+                for wf in list.iter() {
+                    for x in wf.kernel_radius.iter() {
+                        rmax = rmax.max(*x);
+                    }
+                }
+            }
+        }
+        let kmax = profile
+            .grid
+            .axes()
+            .iter()
+            .map(|a| PI * a.grid.len() as f64 / a.length())
+            .fold(0.0f64, f64::max);
+        1.0 + kmax * rmax
+    };
+    let (tol_o, tol_r) = (tol_omega(&cx.case.spec), tol_res(&cx.case.spec) * amp);
+    let tol_wd = TOL_WD * amp;
+    let akey = if cx.case.spec.has_association() { "assoc" } else { "plain" };
+    let dft = profile.dft.clone();
+    let polar = cx.case.grid.kind.has_polar_axis();
+    let d = cx.case.grid.kind.dim();
+    let shape = grid_shape(&profile.grid);
+    let nseg = b.rho_seg.len();
+    let rho_tot: f64 = b.rho_comp.sum();
+
+    // ---- integral of one, volume ----
+    let ones: Array<f64, D> = filled(&shape, &vec![1.0; shape[0]]);
+    let v_int = profile.integrate(&Dimensionless::from_reduced(ones)).to_reduced();
+    note("integral(1) vs geometric volume (relative)", (v_int / cx.vref - 1.0).abs());
+    obs.close(&format!("[{route}] integral(1) = geometric volume"), v_int, cx.vref, TOL_GEO, 0.0);
+    let v_rep = profile.volume().to_reduced();
+    if !polar {
+        note("volume() vs integral(1) - offset (relative, non-polar axes)", ((v_rep + (cx.vref - cx.vdoc)) / v_int - 1.0).abs());
+    }
+    // volume() excludes a potential offset (documented): compare with the documented value
+    let v_excl = cx.vref - cx.vdoc; // volume of the offset region (0 without offset)
+    volume_clause(
+        obs,
+        polar,
+        &format!("[{route}] volume() vs integral(1) - offset region"),
+        v_rep,
+        v_int - v_excl,
+        4.0 * v_int,
+        TOL_GEO * v_int,
+    );
+
+    // ---- density is the bulk density everywhere ----
+    let rho = profile.density.to_reduced();
+    for (s, r) in rho.outer_iter().enumerate() {
+        let dev = max_abs_dev(r.iter(), b.rho_seg[s]);
+        obs.ensure(dev <= 1e-13 * b.rho_seg[s], || {
+            format!("[{route}] initial density of segment {s} deviates from bulk by {dev:e}")
+        });
+    }
+
+    // ---- weighted densities ----
+    let wfs = dft.weight_functions(b.t);
+    let wds = match profile.weighted_densities() {
+        Ok(w) => w,
+        Err(e) => {
+            obs.fail(format!("[{route}] weighted_densities failed: {e}"));
+            return;
+        }
+    };
+    obs.ensure(wds.len() == wfs.len(), || "number of weighted-density blocks".into());
+    let mut worst_wd = 0.0f64;
+    for (ic, (wf, wd)) in wfs.iter().zip(wds.iter()).enumerate() {
+        let [sc, vc, sf, vf] = wf.as_slice();
+        let n0 = wf.n_weighted_densities(0);
+        let local = (n0 - sc.len() * nseg - sf.len()) / nseg;
+        let bulk_wd = wf.weight_constants(0.0, 0).dot(&b.rho_seg);
+        // magnitude of a vector weighted density: sum_s |prefactor| 4 pi R^2 rho_s
+        let vscale = |w: &feos_dft::WeightFunction<f64>| -> f64 {
+            (0..nseg)
+                .map(|s| (w.prefactor[s] * 4.0 * PI * w.kernel_radius[s].powi(2)).abs() * b.rho_seg[s])
+                .sum::<f64>()
+        };
+        // expected rows in the layout of the d-dimensional convolver
+        let mut expect: Vec<(f64, f64)> = vec![]; // (value, scale)
+        let mut k = 0;
+        for _ in 0..(local + sc.len()) * nseg {
+            expect.push((bulk_wd[k], bulk_wd[k].abs()));
+            k += 1;
+        }
+        for w in vc.iter() {
+            for _ in 0..d {
+                for s in 0..nseg {
+                    let sc_ = (w.prefactor[s] * 4.0 * PI * w.kernel_radius[s].powi(2)).abs() * b.rho_seg[s];
+                    expect.push((0.0, sc_));
+                }
+            }
+        }
+        for _ in 0..sf.len() {
+            expect.push((bulk_wd[k], bulk_wd[k].abs()));
+            k += 1;
+        }
+        for w in vf.iter() {
+            for _ in 0..d {
+                expect.push((0.0, vscale(w)));
+            }
+        }
+        if !obs.ensure(wd.shape()[0] == expect.len(), || {
+            format!("[{route}] contribution {ic}: {} weighted densities, expected {}", wd.shape()[0], expect.len())
+        }) {
+            continue;
+        }
+        if !vc.is_empty() || !vf.is_empty() {
+            obs.class("vector-weights");
+        }
+        for (r, (row, (val, scale))) in wd.outer_iter().zip(expect.iter()).enumerate() {
+            let dev = max_abs_dev(row.iter(), *val);
+            worst_wd = worst_wd.max(dev / scale.max(1e-300));
+            obs.ensure(dev <= tol_wd * scale, || {
+                format!("[{route}] weighted density {r} of contribution {ic}: max deviation {dev:e} from bulk value {val:e} (scale {scale:e})")
+            });
+        }
+    }
+    note("weighted densities / bulk value", worst_wd);
+    note("weighted densities / (bulk value x (1 + k_max R_max))", worst_wd / amp);
+
+    // ---- Euler-Lagrange residual ----
+    match profile.residual(false) {
+        Ok((res, res_bulk, norm)) => {
+            let mut worst = 0.0f64;
+            for (s, r) in res.outer_iter().enumerate() {
+                worst = worst.max(max_abs_dev(r.iter(), 0.0) / b.rho_seg[s]);
+            }
+            note(&format!("residual(false) max |res|/rho [{akey}]"), worst);
+            note(&format!("residual(false) max |res|/(rho (1 + k_max R_max)) [{akey}]"), worst / amp);
+            note(&format!("residual norm / rho [{akey}]"), norm / rho_tot);
+            obs.ensure(worst <= tol_r, || format!("[{route}] residual(false): max |res|/rho = {worst:e}"));
+            obs.ensure(norm <= tol_r * rho_tot, || format!("[{route}] residual norm {norm:e} vs rho {rho_tot:e}"));
+            obs.ensure(res_bulk.iter().all(|x| *x == 0.0), || format!("[{route}] bulk residual {res_bulk:?}"));
+        }
+        Err(e) => obs.fail(format!("[{route}] residual(false) failed: {e}")),
+    }
+    match profile.residual(true) {
+        Ok((res, _, _)) => {
+            let worst = max_abs_dev(res.iter(), 0.0);
+            note(&format!("residual(true) max [{akey}]"), worst);
+            obs.ensure(worst <= tol_r, || format!("[{route}] residual(true): max |ln rho_proj - ln rho| = {worst:e}"));
+        }
+        Err(e) => obs.fail(format!("[{route}] residual(true) failed: {e}")),
+    }
+
+    // ---- grand potential density = -p ----
+    // scale: sum of |terms| of omega = T (f - sum (dF/drho + m) rho + bonds)
+    let s_omega = match dft.functional_derivative(b.t, &rho, &profile.convolver) {
+        Ok((f, dfdrho)) => {
+            let f0 = f.iter().next().copied().unwrap_or(0.0).abs();
+            let m = dft.m();
+            let mut s = f0;
+            for (i, r) in dfdrho.outer_iter().enumerate() {
+                s += (r.iter().next().copied().unwrap_or(0.0).abs() + m[i] + 1.0) * b.rho_seg[i];
+            }
+            s * b.t
+        }
+        Err(e) => {
+            obs.fail(format!("[{route}] functional_derivative failed: {e}"));
+            return;
+        }
+    };
+    let atol_ic = atol_ideal_chain(b.t, &dft.m().into_owned());
+    let tol_abs = tol_o * s_omega + atol_ic;
+    let mut nontrivial = false;
+    match profile.grand_potential_density() {
+        Ok(om) => {
+            let om = om.to_reduced();
+            let dev = max_abs_dev(om.iter(), -b.p);
+            note(&format!("|omega + p| / scale [{akey}]"), dev / s_omega);
+            note(&format!("(|omega + p| - ideal-chain regularisation) / scale [{akey}]"), (dev - atol_ic).max(0.0) / s_omega);
+            obs.ensure(dev <= tol_abs, || {
+                format!("[{route}] grand potential density: max |omega + p| = {dev:e} (p = {:e}, scale {s_omega:e})", b.p)
+            });
+            // non-trivial: the residual pressure is visible above the tolerance
+            if (b.p - rho_tot * b.t).abs() > 1e3 * tol_abs {
+                nontrivial = true;
+            }
+        }
+        Err(e) => obs.fail(format!("[{route}] grand_potential_density failed: {e}")),
+    }
+
+    // ---- moles = rho * integral(1) ----
+    let moles = profile.moles().to_reduced();
+    for c in 0..b.rho_comp.len() {
+        note("moles vs rho*integral(1) (relative)", (moles[c] / (b.rho_comp[c] * v_int) - 1.0).abs());
+        obs.close(&format!("[{route}] moles[{c}] = rho*integral(1)"), moles[c], b.rho_comp[c] * v_int, TOL_GEO, 0.0);
+    }
+    obs.close(
+        &format!("[{route}] total_moles"),
+        profile.total_moles().to_reduced(),
+        rho_tot * v_int,
+        TOL_GEO,
+        0.0,
+    );
+    // excess adsorption N - rho*volume() (relative to rho*integral(1))
+    for c in 0..b.rho_comp.len() {
+        let exc = (moles[c] - b.rho_comp[c] * v_rep) / (b.rho_comp[c] * v_int);
+        volume_clause(
+            obs,
+            polar,
+            &format!("[{route}] relative excess adsorption of component {c}"),
+            exc,
+            v_excl / v_int,
+            -3.0,
+            10.0 * TOL_GEO,
+        );
+    }
+
+    // ---- grand potential + p integral(1) = 0 ----
+    match profile.grand_potential() {
+        Ok(om) => {
+            note(&format!("|Omega + p V| / (scale V) [{akey}]"), (om.to_reduced() + b.p * v_int).abs() / (s_omega * v_int));
+            obs.close_scaled(
+                &format!("[{route}] Omega + p*integral(1) = 0"),
+                om.to_reduced() + b.p * v_int,
+                0.0,
+                1.0,
+                tol_abs * v_int,
+            );
+        }
+        Err(e) => obs.fail(format!("[{route}] grand_potential failed: {e}")),
+    }
+
+    // ---- wrapper: PoreProfile (public fields) -> interfacial tension; one solve call ----
+    let mut pore = PoreProfile {
+        profile,
+        grand_potential: None,
+        interfacial_tension: None,
+    };
+    match pore.solve_inplace(None, false) {
+        Ok(()) => {
+            let gamma = pore.interfacial_tension.unwrap().to_reduced();
+            // Omega + p*volume() with Omega = -p*integral(1): -p * (offset region)
+            volume_clause(
+                obs,
+                polar,
+                &format!("[{route}] interfacial tension (excess grand potential) / integral(1)"),
+                gamma / v_int,
+                -b.p * v_excl / v_int,
+                3.0 * b.p,
+                tol_abs,
+            );
+            let after = pore.profile.density.to_reduced();
+            let mut worst = 0.0f64;
+            for (s, r) in after.outer_iter().enumerate() {
+                worst = worst.max(max_abs_dev(r.iter(), b.rho_seg[s]) / b.rho_seg[s]);
+            }
+            note(&format!("solve(): relative change of the uniform profile [{akey}]"), worst);
+            obs.ensure(worst <= tol_r, || format!("[{route}] solve() changed the uniform profile by {worst:e} (relative)"));
+            match &pore.profile.solver_log {
+                Some(log) => {
+                    let r = log.residual();
+                    obs.ensure(r.len() == 2 && r.iter().all(|x| *x <= tol_r * rho_tot), || {
+                        format!("[{route}] solve() from the uniform profile: residual log {:?} (expected two entries of 0 iterations)", r)
+                    });
+                }
+                None => obs.fail(format!("[{route}] no solver log after solve")),
+            }
+        }
+        Err(e) => obs.fail(format!("[{route}] solve from the uniform profile failed: {e}")),
+    }
+    if nontrivial {
+        obs.nontrivial();
+    }
+}
+
+/// density array (segments x grid) of the bulk
+fn bulk_density<DL: Dimension>(b: &Bulk, shape: &[usize]) -> Density<Array<f64, DL>> {
+    let mut sh = vec![b.rho_seg.len()];
+    sh.extend_from_slice(shape);
+    Density::from_reduced(filled::<DL>(&sh, b.rho_seg.as_slice().unwrap()))
+}
+
+fn zeros_like<DL: Dimension>(b: &Bulk, shape: &[usize]) -> Array<f64, DL> {
+    let mut sh = vec![b.rho_seg.len()];
+    sh.extend_from_slice(shape);
+    ArrayD::<f64>::zeros(IxDyn(&sh)).into_dimensionality::<DL>().unwrap()
+}
+
+pub fn check(case: &Case, obs: &mut Obs) {
+    let g = &case.grid;
+    obs.class(g.class());
+    obs.class(case.spec.label());
+    obs.class(format!("{}:{:?}", case.spec.label(), g.kind));
+    obs.class(format!("n={}", case.spec.n()));
+    obs.class(format!("lanczos={:?}", case.lanczos));
+    if case.spec.family != Family::FmtFunctional {
+        obs.class(format!("fmt-version={}", case.spec.opts.fmt));
+    } else {
+        obs.class(format!("FMT-version={}:n={}", case.spec.opts.fmt, case.spec.n()));
+    }
+    if case.spec.has_association() {
+        obs.class("assoc");
+    }
+    if g.n.iter().any(|n| !n.is_power_of_two()) {
+        obs.class("n-not-power-of-two");
+    }
+    if g.offset > 0.0 {
+        obs.class("potential-offset");
+    }
+    let Some(bulk) = build_bulk(&case.spec, &case.state, obs) else { return };
+    obs.class(if case.state.f_eta < 1e-3 {
+        "dilute"
+    } else if case.state.f_eta < 0.2 {
+        "gas-like"
+    } else {
+        "dense"
+    });
+    let grid = g.build();
+    let shape = grid_shape(&grid);
+    let cx = Ctxt {
+        case,
+        bulk: &bulk,
+        vref: g.reference_volume(),
+        vdoc: g.reference_volume() - g.offset,
+    };
+    match g.kind.dim() {
+        1 => {
+            let rho = bulk_density::<Ix2>(&bulk, &shape);
+            let p = DFTProfile::<Ix1, Model>::new(grid, &bulk.state, None, Some(&rho), case.lanczos);
+            check_profile(&cx, obs, p, "DFTProfile");
+        }
+        2 => {
+            let rho = bulk_density::<Ix3>(&bulk, &shape);
+            let p = DFTProfile::<Ix2, Model>::new(grid, &bulk.state, None, Some(&rho), case.lanczos);
+            check_profile(&cx, obs, p, "DFTProfile");
+        }
+        _ => {
+            let rho = bulk_density::<ndarray::Ix4>(&bulk, &shape);
+            let p = DFTProfile::<Ix3, Model>::new(grid, &bulk.state, None, Some(&rho), case.lanczos);
+            check_profile(&cx, obs, p, "DFTProfile");
+        }
+    }
+    if case.wrapped {
+        check_wrapped(case, obs, &bulk);
+    }
+}
+
+/// The same identities on profiles built by the public wrapper constructors with a zero
+/// external potential (Lanczos fixed to Some(1) by those constructors).
+fn check_wrapped(case: &Case, obs: &mut Obs, bulk: &Bulk) {
+    let g = &case.grid;
+    let (tol_o, tol_r) = (tol_omega(&case.spec), tol_res(&case.spec));
+    let dummy = ExternalPotential::HardWall { sigma_ss: 1.0 };
+    match g.kind {
+        GridKind::Cartesian1 | GridKind::Spherical | GridKind::Polar => {
+            let geometry = match g.kind {
+                GridKind::Cartesian1 => Geometry::Cartesian,
+                GridKind::Spherical => Geometry::Spherical,
+                _ => Geometry::Cylindrical,
+            };
+            // slit pore: axis of length pore_size/2 plus the potential offset chosen by the library
+            let pore_size = if g.kind == GridKind::Cartesian1 { 2.0 * g.len[0] } else { g.len[0] };
+            let pore = Pore1D::new(geometry, pore_size * ANGSTROM, dummy, Some(g.n[0]), None);
+            let zeros = zeros_like::<Ix2>(bulk, &[g.n[0]]);
+            let rho = bulk_density::<Ix2>(bulk, &[g.n[0]]);
+            match pore.initialize(&bulk.state, Some(&rho), Some(&zeros)) {
+                Ok(pp) => {
+                    let ax_len = pp.profile.grid.axes()[0].length();
+                    // reference volume of the axis actually built (offset from the axis length)
+                    let mut gs = g.clone();
+                    gs.offset = if g.kind == GridKind::Cartesian1 { ax_len - g.len[0] } else { 0.0 };
+                    if g.kind == GridKind::Cartesian1 {
+                        obs.ensure(gs.offset > 0.0, || format!("slit pore without potential offset: axis length {ax_len}"));
+                    }
+                    let cx = Ctxt {
+                        case,
+                        bulk,
+                        vref: gs.reference_volume(),
+                        vdoc: gs.reference_volume() - gs.offset,
+                    };
+                    obs.class(format!("wrapper:Pore1D:{:?}", g.kind));
+                    check_profile(&cx, obs, pp.profile, "Pore1D");
+                }
+                Err(e) => obs.fail(format!("Pore1D::initialize failed: {e}")),
+            }
+            if g.kind == GridKind::Spherical && case.spec.family == Family::GcPcSaftFunctional {
+                // GcPcSaftFunctional does not implement PairPotential: PairCorrelation is not
+                // available for heterosegmented functionals
+                obs.class("wrapper:PairCorrelation:not-applicable(gc)");
+            } else if g.kind == GridKind::Spherical {
+                // PairCorrelation through its public fields, zero potential
+                let rho = bulk_density::<Ix2>(bulk, &[g.n[0]]);
+                let profile = DFTProfile::<Ix1, Model>::new(g.build(), &bulk.state, None, Some(&rho), Some(1));
+                let mut pc = PairCorrelation {
+                    profile,
+                    pair_correlation_function: None,
+                    self_solvation_free_energy: None,
+                    structure_factor: None,
+                };
+                obs.class("wrapper:PairCorrelation");
+                match pc.solve_inplace(None, false) {
+                    Ok(()) => {
+                        let v = g.reference_volume();
+                        let s_omega = omega_scale(bulk, &pc.profile);
+                        let gfun = pc.pair_correlation_function.as_ref().unwrap();
+                        let dev = max_abs_dev(gfun.iter(), 1.0);
+                        obs.ensure(dev <= tol_r, || format!("PairCorrelation: max |g(r) - 1| = {dev:e}"));
+                        obs.close_scaled(
+                            "PairCorrelation: self solvation free energy",
+                            pc.self_solvation_free_energy.unwrap().to_reduced(),
+                            0.0,
+                            1.0,
+                            (tol_o * s_omega + atol_ideal_chain(bulk.t, &pc.profile.dft.m().into_owned())) * v,
+                        );
+                        let n = bulk.rho_comp.sum() * v;
+                        obs.close_scaled(
+                            "PairCorrelation: structure factor - 1",
+                            pc.structure_factor.unwrap() - 1.0,
+                            0.0,
+                            10.0 * TOL_GEO,
+                            n,
+                        );
+                    }
+                    Err(e) => obs.fail(format!("PairCorrelation::solve failed: {e}")),
+                }
+            }
+        }
+        GridKind::Periodical2 => {
+            let pore = Pore2D::new(
+                [g.len[0] * ANGSTROM, g.len[1] * ANGSTROM],
+                g.angles[0] * DEGREES,
+                [g.n[0], g.n[1]],
+            );
+            let rho = bulk_density::<Ix3>(bulk, &g.n);
+            match pore.initialize(&bulk.state, Some(&rho), None) {
+                Ok(pp) => {
+                    let cx = Ctxt {
+                        case,
+                        bulk,
+                        vref: g.reference_volume(),
+                        vdoc: g.reference_volume(),
+                    };
+                    obs.class("wrapper:Pore2D");
+                    check_profile(&cx, obs, pp.profile, "Pore2D");
+                }
+                Err(e) => obs.fail(format!("Pore2D::initialize failed: {e}")),
+            }
+        }
+        GridKind::Periodical3 => {
+            let size = [g.len[0] * ANGSTROM, g.len[1] * ANGSTROM, g.len[2] * ANGSTROM];
+            let coords = Length::from_reduced(arr2(&[[1.0], [1.0], [1.0]]));
+            let pore = Pore3D::new(
+                size,
+                [g.n[0], g.n[1], g.n[2]],
+                coords,
+                Array1::from_elem(1, 3.0),
+                Array1::from_elem(1, 0.0),
+                Some([g.angles[0] * DEGREES, g.angles[1] * DEGREES, g.angles[2] * DEGREES]),
+                None,
+                None,
+            );
+            let rho = bulk_density::<ndarray::Ix4>(bulk, &g.n);
+            let zeros = zeros_like::<ndarray::Ix4>(bulk, &g.n);
+            match pore.initialize(&bulk.state, Some(&rho), Some(&zeros)) {
+                Ok(pp) => {
+                    let cx = Ctxt {
+                        case,
+                        bulk,
+                        vref: g.reference_volume(),
+                        vdoc: g.reference_volume(),
+                    };
+                    obs.class("wrapper:Pore3D");
+                    check_profile(&cx, obs, pp.profile, "Pore3D");
+                }
+                Err(e) => obs.fail(format!("Pore3D::initialize failed: {e}")),
+            }
+        }
+        GridKind::Cartesian3 => {
+            // two solute sites with zero energy parameter: external potential exactly zero
+            let coords = Length::from_reduced(Array2::from_shape_vec((3, 2), vec![-0.3, 0.3, -0.2, 0.2, -0.1, 0.1]).unwrap());
+            let size = [g.len[0] * ANGSTROM, g.len[1] * ANGSTROM, g.len[2] * ANGSTROM];
+            match SolvationProfile::new(
+                &bulk.state,
+                [g.n[0], g.n[1], g.n[2]],
+                coords,
+                Array1::from_elem(2, 3.0),
+                Array1::from_elem(2, 0.0),
+                Some(size),
+                None,
+                None,
+            ) {
+                Ok(mut sp) => {
+                    obs.class("wrapper:SolvationProfile");
+                    let pot = max_abs_dev(sp.profile.external_potential.iter(), 0.0);
+                    if !obs.ensure(pot == 0.0, || format!("SolvationProfile with epsilon_ss = 0: external potential up to {pot:e}")) {
+                        return;
+                    }
+                    let s_omega = omega_scale(bulk, &sp.profile);
+                    let v = g.reference_volume();
+                    // constructor initialises the density from the bulk and the potential
+                    let rho = sp.profile.density.to_reduced();
+                    let mut worst = 0.0f64;
+                    for (s, r) in rho.outer_iter().enumerate() {
+                        worst = worst.max(max_abs_dev(r.iter(), bulk.rho_seg[s]) / bulk.rho_seg[s]);
+                    }
+                    obs.ensure(worst <= tol_r, || format!("SolvationProfile: initial density deviates from bulk by {worst:e}"));
+                    match sp.solve_inplace(None, false) {
+                        Ok(()) => {
+                            obs.close_scaled(
+                                "SolvationProfile: solvation free energy / volume",
+                                sp.solvation_free_energy.unwrap().to_reduced() / v,
+                                0.0,
+                                1.0,
+                                tol_o * s_omega + atol_ideal_chain(bulk.t, &sp.profile.dft.m().into_owned()),
+                            );
+                        }
+                        Err(e) => obs.fail(format!("SolvationProfile::solve failed: {e}")),
+                    }
+                    let cx = Ctxt {
+                        case,
+                        bulk,
+                        vref: v,
+                        vdoc: v,
+                    };
+                    check_profile(&cx, obs, sp.profile, "SolvationProfile");
+                }
+                Err(e) => obs.fail(format!("SolvationProfile::new failed: {e}")),
+            }
+        }
+        GridKind::Cartesian2 | GridKind::Cylindrical => {
+            // no dedicated public constructor: covered by the PoreProfile literal in check_profile
+            obs.class("wrapper:none-for-this-grid");
+        }
+    }
+}
+
+/// sum of |terms| of the grand potential density (reduced pressure units)
+fn omega_scale<D>(b: &Bulk, profile: &DFTProfile<D, Model>) -> f64
+where
+    D: Dimension,
+    D::Larger: Dimension<Smaller = D>,
+{
+    let rho = profile.density.to_reduced();
+    match profile.dft.functional_derivative(b.t, &rho, &profile.convolver) {
+        Ok((f, dfdrho)) => {
+            let m = profile.dft.m();
+            let mut s = f.iter().next().copied().unwrap_or(0.0).abs();
+            for (i, r) in dfdrho.outer_iter().enumerate() {
+                s += (r.iter().next().copied().unwrap_or(0.0).abs() + m[i] + 1.0) * b.rho_seg[i];
+            }
+            s * b.t
+        }
+        Err(_) => f64::NAN,
+    }
+}
+
+fn part() -> PartCfg {
+    let env = |k: &str, d: u32| std::env::var(k).ok().and_then(|s| s.parse().ok()).unwrap_or(d);
+    PartCfg {
+        name: "sampled",
+        genome_len: 110,
+        cases_quick: env("C16_CASES", 1500),
+        cases_thorough: env("C16_CASES_THOROUGH", 150_000),
+        panic: PanicPolicy::Violation,
+    }
+}
+
+pub fn run(ctx: &Ctx) {
+    ctx.set_rule("sampled: proptest genomes -> grid (8 kinds: Cartesian1/2/3, Periodical2 (angle 30-150 deg), Periodical3 (angles 45-135 deg, Gram determinant > 0.1), Spherical, Polar, Cylindrical; points per axis log-uniform 16-4096 (1-D), 8-128 (2-D), 8-32 (3-D); lengths log-uniform 10-300 A; Cartesian1 optionally with a potential offset) x functional (PcSaftFunctional, FMTFunctional, GcPcSaftFunctional, PetsFunctional, SaftVRQMieFunctional through feos::ResidualModel; 3 FMT versions; 1-3 components (1-2 in 2-D/3-D); shipped/perturbed/random records) x bulk state (tau 0.4-3, eta fraction 2e-6-0.9, open-simplex composition) x Lanczos {None,1,2} x wrapped (profile additionally built by Pore1D/Pore2D/Pore3D/SolvationProfile constructors and PairCorrelation fields with zero external potential). Density = bulk partial densities everywhere. Non-trivial: the residual pressure |p - rho T| exceeds 1e3 x the tolerance of the grand-potential comparison (the functional contributes visibly). Distinct by hash of the canonical case JSON.");
+    ctx.assume("reference: feos-core State of the same functional (bulk route: weight constants at k=0, dual numbers) for p and the bulk weighted densities; independent geometric volume formulas (L, 4/3 pi L^3, pi L^2, pi R^2 L, L1 L2 sin(alpha), L1 L2 L3 sqrt(Gram)) for the integral of one");
+    ctx.assume("tolerances: geometry/moles 1e-11 relative; weighted densities 1e-10 (1 + k_max R_max) of the bulk value (vector rows: of sum_s |prefactor| 4 pi R^2 rho_s); Euler-Lagrange residual 5e-11 (1 + k_max R_max) relative to the segment density (associating models: tol_cross_assoc (1 + k_max R_max)); k_max = pi n / L of the finest axis, R_max the largest kernel radius (roundoff amplification by weight functions growing with k); grand potential density, Omega + p V, interfacial tension, solvation free energies 1e-10 (associating models: 10 x tol_cross_assoc, the site fractions are iterated independently in the bulk and on the grid) of the sum of |terms| of omega (T (|f| + sum (|dF/drho| + m + 1) rho)) plus 2 T EPSILON sum (m_i - 1) for the documented ln(|rho| + EPSILON) regularisation of the bulk ideal-chain term");
+    ctx.assume("Axis::volume documents that a potential offset is excluded: for Cartesian1 axes with an offset volume() is compared with the length passed to the constructor and excess quantities with -p (resp. rho) x offset region");
+    ctx.assume("typed functionals are exercised through feos::ResidualModel (enum dispatch to the same code), so that one instantiation per dimension covers all families");
+    ctx.run_sampled(&part(), &decode, &check);
+    let w = WORST.lock().unwrap();
+    ctx.extra("measured_worst", serde_json::to_value(&*w).unwrap());
+}
+
+pub fn replay(ctx: &Ctx, _part: &str, case: &Value) -> bool {
+    ctx.replay_case::<Case>(case, &check)
 }
